@@ -21,8 +21,21 @@ pub enum MenuKind {
     Second,
 }
 
+pub const WIDE: [&[u8]; 8] = [
+    &[0xFF, 0xFF],
+    &[0x7F, 0xFF],
+    &[0xFF, 0x7F],
+    &[0xFF, 0xFF, 0xFF, 0xFF],
+    &[0x7F, 0xFF, 0xFF, 0xFF],
+    &[0xFF, 0xFF, 0xFF, 0x7F],
+    &[0x80, 0x00, 0x00, 0x00],
+    &[0x00, 0x00, 0x00, 0x80],
+];
+
 pub struct Hostile {
     pub family: Family,
+    /// also overwrite 2 and 4 bytes at every offset with u16 / u32 extremes in both byte orders (C13)
+    pub wide: bool,
     pub first: MenuKind,
     /// menu offered once one deviation has been taken (bound 2); None = no further deviations
     pub after: Option<MenuKind>,
@@ -165,6 +178,20 @@ pub fn extremes_uncached(f: Family, d: &[u8]) -> Vec<Vec<u8>> {
                 // GoldSrc split header (number << 4 | total)
                 let mut x = vec![0xFE, 0xFF, 0xFF, 0xFF, 0x01, 0, 0, 0, (number << 4) | (total & 0x0f)];
                 x.extend_from_slice(body);
+                v.push(x);
+            }
+            // a VALID bzip2 stream (of a 25-byte info reply) with absurd / wrong declared sizes
+            const BZ: [u8; 68] = [
+                0x42, 0x5a, 0x68, 0x39, 0x31, 0x41, 0x59, 0x26, 0x53, 0x59, 0x69, 0x79, 0x23, 0x25, 0x00, 0x00, 0x0c, 0xe5, 0x88, 0xf0, 0x00, 0x20,
+                0x40, 0x00, 0x20, 0x05, 0x87, 0x01, 0x00, 0x00, 0x40, 0x00, 0x00, 0xa0, 0x00, 0x22, 0x9e, 0xa7, 0xa8, 0x19, 0x3d, 0x35, 0x0a, 0x60,
+                0x00, 0x21, 0xfa, 0x52, 0xa6, 0xa2, 0x69, 0x12, 0x2c, 0xc3, 0x38, 0xab, 0x8f, 0x8b, 0xb9, 0x22, 0x9c, 0x28, 0x48, 0x34, 0xbc, 0x91,
+                0x92, 0x80,
+            ];
+            for size in [25u32, 0, 24, 26, 0x0100_0001, 0x0400_0001, 0x7fff_ffff, 0xffff_ffff] {
+                let mut x = vec![0xFE, 0xFF, 0xFF, 0xFF, 0x01, 0, 0, 0x80, 1, 0, 0xE0, 0x04];
+                x.extend_from_slice(&size.to_le_bytes());
+                x.extend_from_slice(&0x232c_0337u32.to_le_bytes());
+                x.extend_from_slice(&BZ);
                 v.push(x);
             }
             // split header only / cut inside the header
@@ -467,6 +494,7 @@ pub fn extremes_uncached(f: Family, d: &[u8]) -> Vec<Vec<u8>> {
 }
 
 struct Menu<'a> {
+    wide: bool,
     f: Family,
     d: Option<&'a [u8]>,
     kind: MenuKind,
@@ -478,6 +506,7 @@ struct Menu<'a> {
 struct Layout {
     trunc: usize,
     subst: usize,
+    wide: usize,
     textnum: usize,
     tails: usize,
     extremes: usize,
@@ -486,7 +515,7 @@ struct Layout {
 }
 
 impl Layout {
-    fn total(&self) -> usize { 1 + self.trunc + self.subst + self.textnum + self.tails + self.extremes + self.oversize + self.timeout }
+    fn total(&self) -> usize { 1 + self.trunc + self.subst + self.wide + self.textnum + self.tails + self.extremes + self.oversize + self.timeout }
 }
 
 /// Boundary subset of offsets used for the second deviation.
@@ -509,6 +538,7 @@ impl<'a> Menu<'a> {
             return Layout {
                 trunc: 0,
                 subst: 0,
+                wide: 0,
                 textnum: 0,
                 tails: 0,
                 extremes: ext,
@@ -521,6 +551,7 @@ impl<'a> Menu<'a> {
                 Layout {
                     trunc: len,
                     subst: len * SUBST.len(),
+                    wide: if self.wide { len * WIDE.len() } else { 0 },
                     textnum: if has && is_text_family(self.f) { digit_runs(self.d.unwrap()).len() * TEXT_NUMBERS.len() } else { 0 },
                     tails: if has { tail_prefixes(self.f, self.d.unwrap()).len() * n_tails(self.tail_len) } else { n_tails(self.tail_len.min(2)) },
                     extremes: ext,
@@ -532,6 +563,7 @@ impl<'a> Menu<'a> {
                 Layout {
                     trunc: len,
                     subst: 0,
+                    wide: 0,
                     textnum: 0,
                     tails: 0,
                     extremes: ext,
@@ -544,6 +576,7 @@ impl<'a> Menu<'a> {
                 Layout {
                     trunc: so,
                     subst: so * 3,
+                    wide: if self.wide { so * WIDE.len() } else { 0 },
                     textnum: 0,
                     tails: 0,
                     extremes: ext,
@@ -581,6 +614,24 @@ impl<'a> Menu<'a> {
             return custom(x);
         }
         i -= l.subst;
+        if i < l.wide {
+            let off = match self.kind {
+                MenuKind::Second => subset_offsets(d.len())[i / WIDE.len()],
+                _ => i / WIDE.len(),
+            };
+            let w = WIDE[i % WIDE.len()];
+            let mut x = d.to_vec();
+            for (k, b) in w.iter().enumerate() {
+                if off + k < x.len() {
+                    x[off + k] = *b;
+                }
+            }
+            if x == d {
+                x[off] = !x[off];
+            }
+            return custom(x);
+        }
+        i -= l.wide;
         if i < l.textnum {
             let runs = digit_runs(d);
             let (s, e) = runs[i / TEXT_NUMBERS.len()];
@@ -629,6 +680,7 @@ impl Hostile {
             self.after?
         };
         Some(Menu {
+            wide: self.wide,
             f: self.family,
             d: pt.queue.front().map(|v| v.as_slice()),
             kind,
